@@ -75,7 +75,17 @@ class _SemantivaComponentMeta(ABCMeta):
                 return
             if cat:
                 with _REGISTRY_LOCK:
-                    _COMPONENT_REGISTRY.setdefault(cat, []).append(cls)
+                    entries = _COMPONENT_REGISTRY.setdefault(cat, [])
+                    # A class generated again for the same configuration (node
+                    # wrappers, IO adapters, string-defined processors) replaces its
+                    # predecessor instead of accumulating one entry per run.
+                    ident = (cls.__module__, cls.__qualname__)
+                    for idx, known in enumerate(entries):
+                        if (known.__module__, known.__qualname__) == ident:
+                            entries[idx] = cls
+                            break
+                    else:
+                        entries.append(cls)
 
 
 class _SemantivaComponent(metaclass=_SemantivaComponentMeta):
